@@ -520,6 +520,11 @@ pub mod errors {
         .with_note("All required trait methods must be implemented")
     }
 
+    pub fn method_without_body(owner: &str, method: &str, span: Span) -> CompileError {
+        CompileError::type_error(format!("Method '{}' of '{}' has no body", method, owner), span)
+            .with_hint("Only trait methods may be declared without a body")
+    }
+
     pub fn trait_method_signature_mismatch(
         trait_name: &str,
         type_name: &str,
